@@ -32,6 +32,7 @@ func init() {
 
 func runLookup(r *h.Run, prop string) {
 	p := defaultProfile()
+	p.revSweep = true
 	var accept func(c *h.Case) bool
 	switch prop {
 	case "C01":
@@ -69,7 +70,8 @@ func runLookup(r *h.Run, prop string) {
 
 // ---------- C01 ----------
 func oracleC01(w *h.Worker, b *h.Built, inst string, st *trie.SlimTrie, u *inputSpec) *h.Viol {
-	for _, i := range b.Kept {
+	for x := range b.Kept {
+		i := b.Kept[ord(w, len(b.Kept), x)]
 		k := b.Keys[i]
 		v, found := st.Get(k)
 		id := st.GetID(k)
@@ -90,7 +92,9 @@ func oracleC01(w *h.Worker, b *h.Built, inst string, st *trie.SlimTrie, u *input
 
 // ---------- C02 ----------
 func oracleC02(w *h.Worker, b *h.Built, inst string, st *trie.SlimTrie, u *inputSpec) *h.Viol {
-	for i, k := range b.Keys {
+	for x := range b.Keys {
+		i := ord(w, len(b.Keys), x)
+		k := b.Keys[i]
 		v, found := st.RangeGet(k)
 		w.Trans++
 		want := b.WantVal(i)
@@ -159,7 +163,9 @@ func oracleC03(w *h.Worker, b *h.Built, inst string, st *trie.SlimTrie, u *input
 
 // ---------- C09 ----------
 func oracleC09(w *h.Worker, b *h.Built, inst string, st *trie.SlimTrie, u *inputSpec) *h.Viol {
-	for j, i := range b.Kept {
+	for x := range b.Kept {
+		j := ord(w, len(b.Kept), x)
+		i := b.Kept[j]
 		k := b.Keys[i]
 		lv, ev, gv := st.Search(k)
 		w.Trans++
@@ -245,6 +251,14 @@ func oracleC10(w *h.Worker, b *h.Built, inst string, st *trie.SlimTrie, u *input
 		}
 	}
 	return nil
+}
+
+// ord maps the x-th step of a sweep to an index: ascending, or descending in the second sweep.
+func ord(w *h.Worker, n, x int) int {
+	if w.Rev {
+		return n - 1 - x
+	}
+	return x
 }
 
 func briefQ(q string) string {
